@@ -39,14 +39,42 @@ def strip_hooks(s):
     return re.sub(r"#\[cfg\(yamaquasi_verif\)\]\s*[^;{]*;", "", s)
 
 
-def tokens(text, inline, what):
+def reacts(text, pos, what):
+    """the token at `pos` must sit in the condition of an `if` whose block starts by leaving the unit (`return` / `break`):
+    the model's Act.poll / Act.check END the worker's unit when they see `true`; a poll whose answer is ignored, or used for
+    something else, is not the modelled action"""
+    i = text.rfind("if ", 0, pos)
+    if i < 0 or re.search(r"[{};]", text[i:pos]):
+        raise ExtractError(f"{what}: a poll / flag read that is not the condition of an `if`")
+    depth, j = 0, pos
+    while j < len(text):
+        ch = text[j]
+        if ch == "(":
+            depth += 1
+        elif ch == ")":
+            depth -= 1
+        elif ch == "{" and depth <= 0:
+            break
+        elif ch == ";" and depth <= 0:
+            raise ExtractError(f"{what}: a poll / flag read whose `if` has no block")
+        j += 1
+    blk = text[j:_match_brace(text, j)]
+    if not re.match(r"\{\s*(return\b|break\b)", blk):
+        raise ExtractError(f"{what}: the block guarded by a poll / flag read does not start with `return` or `break`")
+
+
+def tokens(text, inline, what, check_reaction=True):
     """protocol tokens of `text` in source order; calls of functions named in `inline` are replaced by the
     entry of `inline` (a list of tokens or a marker string)"""
     out = []
     for m in TOK.finditer(text):
         if m.group("poll"):
+            if check_reaction:
+                reacts(text, m.start(), what)
             out.append("poll")
         elif m.group("check"):
+            if check_reaction:
+                reacts(text, m.start(), what)
             out.append("check")
         elif m.group("publish"):
             out.append("publish")
@@ -54,6 +82,8 @@ def tokens(text, inline, what):
             c = m.group("callee")
             if c in inline:
                 v = inline[c]
+                if isinstance(v, list) and check_reaction and any(t in ("poll", "check") for t in v):
+                    reacts(text, m.start(), what)      # e.g. `if s.finished() { return; }`
                 out.extend(v if isinstance(v, list) else [v])
     if OTHER_SHARED.search(text):
         raise ExtractError(f"{what}: an access to the shared flags / store that the translator does not know")
